@@ -354,8 +354,22 @@ func (p *sparser) primary() *SNode {
 		case "forall", "exists":
 			bs := p.binders()
 			p.expect("::")
+			// optional instantiation trigger:  forall x :: { f(x), g(x) } body
+			var trig []*SNode
+			if p.isOp("{") {
+				p.next()
+				for {
+					trig = append(trig, p.expr())
+					if p.isOp(",") {
+						p.next()
+						continue
+					}
+					break
+				}
+				p.expect("}")
+			}
 			body := p.expr()
-			return &SNode{Op: t.s, Binders: bs, Args: []*SNode{body}}
+			return &SNode{Op: t.s, Binders: bs, Args: append([]*SNode{body}, trig...)}
 		case "let":
 			n := p.next()
 			p.expect("=")
